@@ -1,5 +1,6 @@
 import PqlModel.Props.C14
 import PqlModel.Props.C14Order
+import PqlModel.Props.C06Params
 #print axioms Pql.C14.C14_no_conflicting_access
 #print axioms Pql.C14.C14_parameter_map_read_only
 #print axioms Pql.C14.C14_package_vars
